@@ -49,9 +49,30 @@ def code_lines(path):
     return lines, out
 
 
-def mutations(path):
-    """Yields (line index, operator, new line or None for deletion)."""
+def mutations(path, ops=None):
+    """Yields (line index, operator, new line or None for deletion).  A new line may contain '\n' (two statements swapped)."""
     lines, code = code_lines(path)
+    codeset = dict(code)
+    if ops is None or 'swapadj' in ops:
+        # two adjacent single-line statements exchanged (same indentation, both complete statements)
+        def stmt(x):
+            t = x.strip()
+            return t.endswith(';') and t.count('(') == t.count(')') and t.count('{') == t.count('}') and not t.startswith(('use ', 'pub ', '//', '}'))
+        for i, l in code:
+            if i + 1 in codeset and stmt(l) and stmt(lines[i + 1]) and (len(l) - len(l.lstrip())) == (len(lines[i + 1]) - len(lines[i + 1].lstrip())) and l.strip() != lines[i + 1].strip():
+                yield i, 'swapadj', lines[i + 1] + '\n' + l + '\n//swapped'
+        for i, l in code:
+            t = l.strip()
+            if re.match(r'^(return\b.*;|break;|continue;)$', t):
+                yield i, 'delret', None
+            m = re.search(r'=\s*Some\((.*)\);\s*$', l.split('//')[0].rstrip())
+            if m and not t.startswith('let '):
+                yield i, 'some->none', re.sub(r'=\s*Some\(.*\);', '= None;', l, count=1)
+            for a, b in ((' + 1', ' + 2'), (' - 1', ' - 0'), ('+= 1', '+= 2')):
+                if a in l.split('//')[0]:
+                    yield i, a.strip() + '->' + b.strip(), l.replace(a, b, 1)
+    if ops is not None and 'base' not in ops:
+        return
     for i, l in code:
         s = l.strip()
         code_part = l.split('//')[0]
@@ -121,6 +142,9 @@ def _apply(tree, path, idx, new):
     lines = _state['pristine'][path].split('\n')
     if new is None:
         lines[idx] = ''
+    elif new.endswith('\n//swapped'):
+        a, b, _ = new.split('\n')
+        lines[idx], lines[idx + 1] = a, b
     else:
         lines[idx] = new
     open(full, 'w').write('\n'.join(lines))
@@ -170,13 +194,17 @@ def cmd_scan(argv):
         j = int(argv[argv.index('-j') + 1])
     if '--only' in argv:
         only = argv[argv.index('--only') + 1]
+    ops = None
+    if '--ops' in argv:
+        ops = set(argv[argv.index('--ops') + 1].split(','))
+    outname = 'scan.json' if ops is None else 'scan-%s.json' % '-'.join(sorted(ops))
     jobs = []
     for path in source_files():
         if only and only not in path:
             continue
         lines, _ = code_lines(path)
         seen = set()
-        for idx, op, new in mutations(path):
+        for idx, op, new in mutations(path, ops):
             if new is not None and new == lines[idx]:
                 continue
             k = (idx, new)
@@ -195,8 +223,8 @@ def cmd_scan(argv):
                 for x in results:
                     c[x['status']] = c.get(x['status'], 0) + 1
                 print(n + 1, c, flush=True)
-                json.dump(results, open(os.path.join(OUT, 'scan.json'), 'w'), indent=0)
-    json.dump(results, open(os.path.join(OUT, 'scan.json'), 'w'), indent=0)
+                json.dump(results, open(os.path.join(OUT, outname), 'w'), indent=0)
+    json.dump(results, open(os.path.join(OUT, outname), 'w'), indent=0)
     c = {}
     for x in results:
         c[x['status']] = c.get(x['status'], 0) + 1
